@@ -38,6 +38,15 @@ func enumC03(emit func(c any) bool) {
 				}
 			}
 		}
+		// the header matrix: whole-buffer entry points and the pull decoder
+		for _, h := range hostileHeaders(format) {
+			for _, entry := range []string{"parse", "decoder", "write"} {
+				c := &C03Case{Format: format, Data: h, Entry: entry, Kind: "enum_header_matrix", BufSize: 64}
+				if !emit(c) {
+					return
+				}
+			}
+		}
 		for _, h := range c03Hostile[format] {
 			for _, entry := range c03Entries {
 				c := &C03Case{Format: format, Data: []byte(h), Entry: entry, Kind: "enum_hostile", BufSize: 2}
